@@ -165,13 +165,15 @@ PROPS = {
         "level_note": "Trusts the PD conventions of the Knot Atlas as encoded in the oracle (self-tested against the published trefoil data); inputs sampled.",
     },
     "C01": {
+        "need_old": True,
         "budget_s": {"quick": 150, "thorough": 2400},
         "floor": {"quick": 3000, "thorough": 60000},
         "rule": "diagrams: empty link, kinked unknots, table PD codes with <= 8 (quick) / 10 crossings incl. multi-component links, optionally transformed (R1 kinks, split union, connected sum, switched crossings = mixed X/Xm data, mirror, "
                 "orientation reversal, relabelling, crossing permutation) x rings i64, BigInt, Ratio<i64>, FF2, FF<2>, FF<3> x (h,t) in {(0,0),(1,0),(0,1),(2,0),(1,1),(2,3),(-1,2),(3,-2)} (reduced mod p for fields) x reduced (t=0) / unreduced "
                 "x build configuration (default; explicit crossing absorption orders fed one crossing at a time through the public builder; auto_deloop/auto_elim on/off) x rayon pools of 1,2,4,16 threads; "
                 "oracle: definition-level cube of resolutions over Z built from the raw PD code, homology by own unit-pivot cancellation + textbook SNF (mod p for fields): rank and invariant factors per degree, and for h=t=0 the bigraded "
-                "table by both library routes; non-trivial = >= 3 crossings or >= 2 components or (h,t) != (0,0); distinct = hash(PD, ring, h, t, reduced, order, policy, threads)",
+                "table by both library routes; second opinion: the library's own first-generation engine (explicit cube, cargo feature `old`, separate process vh-old) on table diagrams with 3..10 (quick) / 11 crossings over Z, Q, F2, F3; "
+                "non-trivial = >= 3 crossings or >= 2 components or (h,t) != (0,0); distinct = hash(PD, ring, h, t, reduced, order, policy, threads)",
         "assumptions": COMMON_ASSUME + [
             "oracle-checked diagrams are bounded by 10 crossings; larger diagrams are covered only through the relations of C02/C03",
             "polynomial parameters (H,T) are covered by composition with C05 (specialisation commutes) rather than by a polynomial oracle",
